@@ -94,13 +94,23 @@ impl Graph {
     /// Independent model of include resolution: the includer's directory first, then
     /// INCLUDE_DIR; the first candidate that is a readable file wins.
     pub fn resolve(&self, includer: usize, name: &str) -> Option<usize> {
-        let norm = |p: String| crate::model::norm_path(&p);
-        let first = norm(format!("{}/{}", parent_of(&self.files[includer].path), name));
-        if let Some(i) = self.index_of(&first) {
+        // joining like a path library does: an absolute name replaces the base, an empty base
+        // leaves a relative path (which names nothing on this disk), "." / ".." are resolved
+        let join = |base: &str, name: &str| -> Option<String> {
+            let joined = if name.starts_with('/') {
+                name.to_string()
+            } else if base.is_empty() {
+                return None;
+            } else {
+                format!("{}/{}", base.trim_end_matches('/'), name)
+            };
+            Some(crate::model::norm_path(&joined))
+        };
+        if let Some(i) = join(parent_of(&self.files[includer].path), name).and_then(|p| self.index_of(&p)) {
             return Some(i);
         }
         if let Some(d) = &self.include_dir {
-            return self.index_of(&norm(format!("{d}/{name}")));
+            return join(d, name).and_then(|p| self.index_of(&p));
         }
         None
     }
@@ -218,7 +228,15 @@ pub fn gen_graph(rng: &mut Rng, allow_nested: bool) -> Graph {
             files.push(GFile { path, includes: vec![] });
         }
     }
-    let include_dir = if rng.chance(1, 2) { Some("/w/inc".to_string()) } else { None };
+    // INCLUDE_DIR: unset, the usual directory, and now and then an odd but legal value (a
+    // trailing slash, the includers' own directory, the empty string)
+    let include_dir = match rng.below(12) {
+        0..=5 => None,
+        6..=8 => Some("/w/inc".to_string()),
+        9 => Some("/w/inc/".to_string()),
+        10 => Some("/w".to_string()),
+        _ => Some(String::new()),
+    };
     let nested_graph = allow_nested && rng.chance(1, 4);
     let dotdot = rng.chance(1, 3);
     let mut counter = 0u32;
@@ -228,8 +246,15 @@ pub fn gen_graph(rng: &mut Rng, allow_nested: bool) -> Graph {
         for _ in 0..deg {
             let name = match rng.below(14) {
                 0 => {
+                    // a small pool, so that the same missing file is included from several
+                    // places (and twice in one file)
                     counter += 1;
-                    format!("missing{counter}.td")
+                    format!("missing{}.td", 1 + rng.below(3))
+                }
+                6 if rng.chance(1, 3) => {
+                    // an absolute path in the include statement
+                    let t = rng.below(files.len());
+                    files[t].path.clone()
                 }
                 1 => {
                     counter += 1;
